@@ -761,6 +761,12 @@ class Model(Object):
                 # TODO: Should we add a copy of the metabolite instead?
                 if metabolite not in self.metabolites:
                     self.add_metabolites(metabolite)
+                    # A reaction that was removed from a model earlier is no
+                    # longer known to its metabolites.
+                    if reaction not in metabolite._reaction:
+                        metabolite._reaction.add(reaction)
+                        if context:
+                            context(partial(metabolite._reaction.remove, reaction))
                 # A copy of the metabolite exists in the model, the reaction
                 # needs to point to the metabolite in the model.
                 else:
